@@ -1,17 +1,17 @@
 SPECIFICATION ISpec
 CONSTANTS
   P = 2
-  C = 2
-  L = 0
-  MaxProd = 3
+  C = 1
+  L = 2
+  MaxProd = 0
   NB = 0
-  MaxTog = 0
+  MaxTog = 4
   MaxFail = 0
   Variant = "ok"
   Mode = "free"
   SeqCalls = FALSE
   Emit = FALSE
   MinCmd = 0
-INVARIANTS Refines DeadEndsAreComplete QTypeOK ActiveOK OneConsumer Returned CounterAgrees
+INVARIANTS Refines ListenersAgree PausedIffNoneActive
 VIEW View
 CHECK_DEADLOCK FALSE
